@@ -33,7 +33,7 @@ from stix2patterns.v21.validator import ValidationListener as VL21, DuplicateQua
 def q(s):
     """printable ASCII except backslash and double quote as is, everything else \\XXXXXX
     (Model/PatternShow.show_q)"""
-    return "".join(c if (32 <= ord(c) <= 126 and c not in '\\"') else "\\%06X" % ord(c) for c in s)
+    return "".join(c if (32 <= ord(c) <= 126 and c not in '\\"()[];,') else "\\%06X" % ord(c) for c in s)
 
 
 # ---------------------------------------------------------------- real parser
@@ -534,7 +534,8 @@ def b_qual(s):
 def b_expr(s):
     k = s["k"]
     if k == "cmp":
-        return CMP_BY_NAME[s["cls"]](b_path(s["lhs"]), b_const(s["rhs"]), s["neg"])
+        lhs = s["lhs_text"] if "lhs_text" in s else b_path(s["lhs"])      # a str goes through ObjectPath.make_object_path
+        return CMP_BY_NAME[s["cls"]](lhs, b_const(s["rhs"]), s["neg"])
     if k == "bool":
         return BOOL_BY_NAME[s["op"]]([b_expr(x) for x in s["ops"]])
     if k == "obs":
